@@ -383,4 +383,22 @@ example : (0 : ℝ) ≤ (⟨1, 0, 0, 0⟩ : S4 ℝ).i ∧ (⟨1, 0, 0, 0⟩ : S4
     ∧ (⟨1 / 2, 0⟩ : Cx ℝ).normSq ≤ 1 := by
   norm_num [Cx.normSq]
 
+/-- The whole 2-D field: the coronagraph transforms the `R` rows (columns for the `±y` directions) independently, each with its
+own slice of the pre-apodizer, of the Lyot stop and of the field, so the total energy `Σ_r Σ_j |·|²` (total power on the regular
+pupil grid, uniform weights) is not increased.  `backward` is the same pipeline with `conj lyot` in front and `conj apod` behind,
+hence also covered (the hypotheses only bound moduli). -/
+theorem knife_model_passive_rows (R N M start : ℕ) (hM : 0 < M) (h : start + N ≤ M) (mask : ℕ → ℂ)
+    (apod lyot x : ℕ → ℕ → ℂ) (hmask : ∀ q < M, ‖mask q‖ ≤ 1)
+    (hap : ∀ r < R, ∀ j < N, ‖apod r j‖ ≤ 1) (hly : ∀ r < R, ∀ j < N, ‖lyot r j‖ ≤ 1) :
+    ∑ r ∈ Finset.range R, ∑ j ∈ Finset.range N,
+        ‖lyot r j * knifeRow N M start (NearField.kF M) (NearField.kB M) ((M : ℂ)⁻¹) mask (fun i => x r i * apod r i) j‖ ^ 2
+      ≤ ∑ r ∈ Finset.range R, ∑ j ∈ Finset.range N, ‖x r j‖ ^ 2 := by
+  apply Finset.sum_le_sum
+  intro r hr
+  have hr' := Finset.mem_range.mp hr
+  exact knife_model_passive N M start hM h mask (apod r) (lyot r) (x r) hmask (hap r hr') (hly r hr')
+
+/-- Conjugation does not change the modulus: the backward direction satisfies the same hypotheses. -/
+example (z : ℂ) (h : ‖z‖ ≤ 1) : ‖(starRingEnd ℂ) z‖ ≤ 1 := by rwa [Complex.norm_conj]
+
 end HcipyVerif.C07
